@@ -801,6 +801,10 @@ def _sync_caller(*events, what='value', changed=None, callback=None, function=No
         return function()
 
 
+def _update_deps_of(obj, attribute, *events):
+    obj.param._update_deps(attribute)
+
+
 def _m_caller(self, method_name, what='value', changed=None, callback=None):
     """
     Wrap a method call adding support for scheduling a callback
@@ -2357,12 +2361,10 @@ class Parameters:
         depth = subobjs.index(dep_obj)
         callback = None
         if depth > 0:
-            def callback(*events):
-                """
-                If a subobject changes, we need to notify the main
-                object to update the dependencies.
-                """
-                obj.param._update_deps(attribute)
+            # If a subobject changes, we need to notify the main object to
+            # update the dependencies (a partial of a module-level function:
+            # copy and pickle rebind it to the copy of the main object)
+            callback = partial(_update_deps_of, obj, attribute)
 
         p = '.'.join(dynamic_dep.spec.split(':')[0].split('.')[depth+1:])
         if p == 'param':
